@@ -314,11 +314,24 @@ Section SearchSplit.
     i <= length qn /\ i <= length (e_nibs x) /\ firstn i (e_nibs x) = firstn i qn /\
     (v = false -> i = length qn /\ i = length (e_nibs x)).
 
-  Definition Split (K : list ent) (lc rc : option tree) (r : sres) : Prop :=
+  (* entries of a subset whose key is the query *)
+  Definition mem (s : subset) (e : ent) : Prop := In e (s_ents s) /\ e_nibs e = qn.
+
+  Definition Split (s : subset) (lc rc : option tree) (r : sres) : Prop :=
+    exists B A, Lok (fst (fst r)) B lc /\ Rok (snd r) A rc /\ Forall lt_q B /\ Forall gt_q A /\
+      match seq r with
+      | None => kept s = B ++ A
+      | Some (c, i, v) => exists x, kept s = B ++ x :: A /\ e_keep x = true /\ hit x c i v /\
+                                    (forall e, mem s e -> x = e)
+      end.
+
+  (* the same statement for a list of kept entries that is not (yet) a subset's *)
+  Definition SplitK (K : list ent) (m : ent -> Prop) (lc rc : option tree) (r : sres) : Prop :=
     exists B A, Lok (fst (fst r)) B lc /\ Rok (snd r) A rc /\ Forall lt_q B /\ Forall gt_q A /\
       match seq r with
       | None => K = B ++ A
-      | Some (c, i, v) => exists x, K = B ++ x :: A /\ e_keep x = true /\ hit x c i v
+      | Some (c, i, v) => exists x, K = B ++ x :: A /\ e_keep x = true /\ hit x c i v /\
+                                    (forall e, m e -> x = e)
       end.
 
   Lemma kid_entries_lt s big lb :
@@ -368,8 +381,8 @@ Section SearchSplit.
       | None => prev = None
       end ->
       (forall c lc' rc', In (label_at big qn (sub_w big s), c) ch ->
-         Split (kept (mk_kid s big (label_at big qn (sub_w big s)))) lc' rc' (kf c lc' rc')) ->
-      Split (done ++ flat_map (fun p => kept (mk_kid s big (fst p))) ch) lc rc
+         Split (mk_kid s big (label_at big qn (sub_w big s))) lc' rc' (kf c lc' rc')) ->
+      SplitK (done ++ flat_map (fun p => kept (mk_kid s big (fst p))) ch) (mem s) lc rc
             (search_go (label_at big qn (sub_w big s)) lc rc kf ch prev).
   Proof.
     intros I Hag. set (lbq := label_at big qn (sub_w big s)).
@@ -420,8 +433,11 @@ Section SearchSplit.
           -- apply Forall_app. split; assumption.
           -- apply Forall_app. split; [exact HA|]. apply Hrest_all. lia.
           -- destruct (seq (kf c (or_else prev lc) rc'')) as [[[c1 i1] v1]|].
-             ++ destruct Hseq as (x0 & HK & Hkeep & Hhit). exists x0. split; [|split; assumption].
-                rewrite HK. rewrite <- !app_assoc. reflexivity.
+             ++ destruct Hseq as (x0 & HK & Hkeep & Hhit & Hmem). exists x0. split; [|split; [assumption|split; [assumption|]]].
+                ** rewrite HK. rewrite <- !app_assoc. reflexivity.
+                ** intros e [He Heq]. apply Hmem. split; [|exact Heq].
+                   unfold mk_kid. cbn [s_ents]. apply filter_In. split; [exact He|].
+                   apply Nat.eqb_eq. unfold ent_label. rewrite Heq. reflexivity.
              ++ rewrite Hseq. rewrite <- !app_assoc. reflexivity.
         * (* no child carries the query's label: this child is the right candidate *)
           exists done, (kept (mk_kid s big x) ++ flat_map (fun p => kept (mk_kid s big (fst p))) rest).
@@ -457,7 +473,7 @@ Section SearchSplit.
 
   Lemma search_down_split : forall t s,
     trie_of o t s -> SubInv s -> agree s (s_from s) qn -> justified o s qn ->
-    forall lc rc, Split (kept s) lc rc (search_down qn (length qn) t (s_from s) lc rc).
+    forall lc rc, Split s lc rc (search_down qn (length qn) t (s_from s) lc rc).
   Proof.
     induction t as [id ord tail eidx|id big step pfx fc ch IH] using tree_ind'; intros s Ht I Hag J lc rc.
     - cbn [trie_of] in Ht. destruct Ht as (e & Hs & -> & ->).
@@ -467,6 +483,7 @@ Section SearchSplit.
       destruct (si_kept s I) as (e' & He' & Hk). rewrite Hs in He'. destruct He' as [<-|[]].
       split; [exact Hk|]. destruct Hag as [Hfl Hagf].
       assert (In e (s_ents s)) as He by (rewrite Hs; left; reflexivity).
+      split; [|intros e2 [He2 _]; rewrite Hs in He2; destruct He2 as [<-|[]]; reflexivity].
       repeat split; eauto; try discriminate. apply (si_len s I); exact He.
     - pose proof Ht as Ht0. cbn [trie_of] in Ht. destruct Ht as (ib & labels & kids & b' & Hp & Hfst & Hkm).
       pose proof (inner_facts _ _ _ _ _ _ _ _ _ I Hp) as F.
@@ -479,9 +496,9 @@ Section SearchSplit.
                                         else search_down qn (length qn) c (sub_w big s + wsize big) lc' rc')
                       I Hagw ch [] None Hch) as G.
         cbn [app] in G.
-        assert (kept s = flat_map (fun p => kept (mk_kid s big (fst p))) ch) as ->.
+        assert (kept s = flat_map (fun p => kept (mk_kid s big (fst p))) ch) as EK.
         { rewrite (kept_partition o s big labels kids I F), (if_kids_mk _ _ _ _ _ F), <- Hfst, !flat_map_map. reflexivity. }
-        apply G; clear G.
+        unfold Split. rewrite EK. apply G; clear G.
         * rewrite Hfst. apply (if_asc _ _ _ _ _ F).
         * constructor.
         * reflexivity.
@@ -510,6 +527,7 @@ Section SearchSplit.
              assert (w = length (e_nibs x0)) as Hlen.
              { apply (label_zero_iff big (e_nibs x0) w); [apply sub_w_len; [apply (if_two _ _ _ _ _ F)|exact Hx0s]|exact Hx0l]. }
              unfold hit. cbn [mk_kid s_from label_width]. rewrite Nat.add_0_r. fold w.
+             split; [|intros e2 [He2 _]; rewrite Hx0 in He2; destruct He2 as [<-|[]]; reflexivity].
              split; [eauto|]. split; [lia|]. split; [lia|]. split; [apply Hagw'; exact Hx0s|]. intros _. split; [exact Heq|exact Hlen].
           -- assert (lbq <> 0) as Hnz by (intros Hz; apply Hne; apply (label_zero_iff big qn w Hwl); exact Hz).
              assert (label_width big lbq = wsize big) as Hwd by (destruct lbq; [congruence|reflexivity]).
